@@ -21,50 +21,30 @@ def cstr(s):
     return common.cstr(s)
 
 
-def gen_c06():
-    common.force_repo_path()
-    from suds.xsd import sxbuiltin
-    from suds.sax import date as sdate
-    out = [_hdr("C06Tables")]
-    x2p = sxbuiltin.XBoolean._xml_to_python
-    p2x = sxbuiltin.XBoolean._python_to_xml
-    if not all(isinstance(k, str) and isinstance(v, bool) for k, v in x2p.items()):
-        raise SystemExit("gen_tables: XBoolean._xml_to_python has an unexpected shape")
-    out.append("Definition xml_to_bool_tbl : list (str * bool) := [%s]." % "; ".join(
-        "(%s, %s)" % (cstr(k), common.cbool(v)) for k, v in x2p.items()))
-    # python keys: True/1 and False/0 hash alike; record what the dict answers
-    for b in (True, False):
-        if not isinstance(p2x.get(b), str):
-            raise SystemExit("gen_tables: XBoolean._python_to_xml[%r] is not a string" % b)
-    out.append("Definition bool_to_xml_tbl : list (bool * str) := [(true, %s); (false, %s)]."
-               % (cstr(p2x[True]), cstr(p2x[False])))
-    # which translator class every builtin XSD name is mapped to
-    kinds = []
-    for name, cls in sorted(sxbuiltin.Factory.tags.items()):
-        kinds.append("(%s, %s)" % (cstr(name), cstr(cls.__name__)))
-    out.append("Definition builtin_tags : list (str * str) := [%s]." % ";\n  ".join(kinds))
-    # regex pattern strings of suds.sax.date (the scanner model was written
-    # against these; the harness compares them with the strings it knows)
-    for nm in ("_PATTERN_DATE", "_PATTERN_TIME", "_PATTERN_DATETIME"):
-        out.append("Definition %s : str := %s." % (nm.strip("_").lower(), cstr(getattr(sdate, nm))))
-    for nm in ("_RE_DATE", "_RE_TIME", "_RE_DATETIME"):
-        out.append("Definition %s_flags : Z := %s." % (nm.strip("_").lower(),
-                                                        common.cZ(int(getattr(sdate, nm).flags))))
-    return "\n".join(out) + "\n"
-
-
-GENERATORS = {"C06Tables": gen_c06}
+def _modules():
+    """tools/tables_*.py, one per property that needs regenerated tables.
+    Each defines NAME (file stem under coq/Gen) and gen() -> text."""
+    import importlib
+    here = os.path.dirname(os.path.abspath(__file__))
+    mods = []
+    for f in sorted(os.listdir(here)):
+        if f.startswith("tables_") and f.endswith(".py"):
+            mods.append(importlib.import_module("tools." + f[:-3]))
+    return mods
 
 
 def generate(name):
-    text = GENERATORS[name]()
-    common.write_if_changed(os.path.join(common.COQ, "Gen", name + ".v"), text)
-    return text
+    for m in _modules():
+        if m.NAME == name:
+            text = m.gen()
+            common.write_if_changed(os.path.join(common.COQ, "Gen", name + ".v"), text)
+            return text
+    raise KeyError(name)
 
 
 def generate_all():
-    for name in sorted(GENERATORS):
-        generate(name)
+    for m in _modules():
+        generate(m.NAME)
 
 
 if __name__ == "__main__":
